@@ -1126,6 +1126,13 @@ func main() {
 	}
 	lib.WriteCases("Cases_C03_quorum.v", []string{"model.M_ClaimHash", "model.M_AttestExec"}, "quorum_case", qitems, "quorum_mismatch")
 
+	// ---------------- phase 3b: the same machinery with oracle powers moving between the votes (dynquorum.go)
+	var ditems []string
+	for i := 0; i < schedules; i++ {
+		ditems = append(ditems, dynSchedule(rep, tab, r, seed+5000+int64(i)))
+	}
+	lib.WriteCases("Cases_C03_dyn.v", []string{"model.M_ClaimHash", "model.M_AttestExec", "model.M_AttestExecDyn"}, "dyn_case", ditems, "dyn_mismatch")
+
 	sort.Slice(collisions, func(i, j int) bool { return collisions[i].sig < collisions[j].sig })
 	for _, c := range collisions {
 		replayThroughQuorum(rep, tab, c.p, c.sig, seed)
